@@ -194,7 +194,17 @@ def _gen_program_once(rng, *, futures, hooks, max_pre):
     else:
         base = rng.choice(times + [t + d for t in times for d in (1, 999, 1_000_000, NS)])
         end = max(0, base + rng.choice([0, 0, -1, 1, 5 * NS]))
-    return {"n_ent": n_ent, "end_ns": end, "pre": pre, "sched_order": order, "table": table}
+    prog = {"n_ent": n_ent, "end_ns": end, "pre": pre, "sched_order": order, "table": table}
+    # a start_time other than the epoch (also far from it, where float seconds lose nanosecond resolution);
+    # a few pre-run events then lie before the start and are not live
+    start = rng.choice([0, 0, 0, 0, 10**9, 5 * 10**8 + 1, 10**15 + 12345])
+    if start:
+        prog["start_ns"] = start
+        for spec in pre:
+            spec["t"] += start if rng.random() < 0.93 else 0
+        if end is not None:
+            prog["end_ns"] = end + start
+    return prog
 
 
 # --------------------------------------------------------------------------
